@@ -8,6 +8,7 @@ import (
 	"context"
 	"encoding/json"
 	"fmt"
+	"github.com/buildkite/interpolate"
 	"github.com/lestrrat-go/jwx/v2/jwk"
 	"runtime"
 	"strings"
@@ -122,6 +123,30 @@ func runOwn(ctx context.Context, text []byte, kp keys.Pair, interp bool, yamlOK 
 		}
 	})
 	return
+}
+
+// expandedKeysCollide reports whether some mapping of the document has two keys whose expansions
+// under envVals are the same text.
+func expandedKeysCollide(n *gt.Node) bool {
+	env := envx.New(false, envVals)
+	dup := false
+	gt.Walk(n, func(_ string, x *gt.Node) {
+		if x.Kind != gt.Map {
+			return
+		}
+		seen := map[string]bool{}
+		for _, k := range x.Keys {
+			e, err := interpolate.Interpolate(env, k)
+			if err != nil {
+				e = k
+			}
+			if seen[e] {
+				dup = true
+			}
+			seen[e] = true
+		}
+	})
+	return dup
 }
 
 // yamlUnstable is set per case: the document holds a key with an overflowing digit run, for which
@@ -240,6 +265,13 @@ func TestPropConcurrentUse(t *testing.T) {
 		}
 		det := kp.Kind == "EdDSA"
 		interp := rapid.Bool().Draw(t, "interp")
+		if interp && expandedKeysCollide(d.Meaning) {
+			// two keys of one mapping that expand to the same text: which entry survives the renaming
+			// follows Go's map iteration order for map-backed levels, sequentially too (outside C04's
+			// domain as well) - such a document goes through the life cycle without interpolation
+			interp = false
+			rec.Excluded("interpolation step: expanded keys collide within one mapping (result is iteration-order dependent sequentially too)")
+		}
 		yamlOK := !doc.HasString(d.Meaning, func(s string) bool { return !strs.YAMLLegOK(s) || s == "<<" }) && !doc.HasKey(d.Meaning, func(k string) bool { return k == "<<" || !strs.YAMLLegOK(k) })
 
 		yamlUnstable := ev.Known("F11") && doc.HasKey(d.Meaning, probe.LongDigitRun)
